@@ -333,6 +333,20 @@ func c11Provision(c *Ctx, r *Report, rule string) {
 // from the configured dial string itself (as written, or with placeholders replaced), or from the parsed
 // address's String() (which spells the network out) - not from a projection of the address.
 func c11PeerKey(c *Ctx, r *Report, rule string) {
+	spellings := map[string][]string{}
+	defer func() {
+		// every user of the table spells the key the same way: what is stored under the configured string is not found
+		// (and never released) under the canonical form of the parsed address, and the reverse
+		var ks []string
+		for k, v := range spellings {
+			ks = append(ks, fmt.Sprintf("%s (%s)", k, strings.Join(v, ", ")))
+		}
+		sort.Strings(ks)
+		if len(spellings) > 0 {
+			r.check(len(spellings) == 1, rule, "modules/l4proxy.peers", "one spelling of the key", "-", "every operation on the table uses "+strings.Join(ks, ""),
+				"the operations on the peer table spell the key differently: "+strings.Join(ks, "; ")+" - for an address whose configured spelling is not the canonical one (tcp/host:port, a placeholder) the entry stored at provisioning is never released at clean-up: the peer outlives its configuration with whatever health state it had")
+		}
+	}()
 	r.rule(rule, "the shared peer table is keyed by the configured dial address itself (or the parsed address's String()), never by a projection that drops the network or the host: every key of LoadOrStore/Delete/Load on the table derives from Upstream.Dial", 2)
 	n := 0
 	for _, fn := range c.Funcs {
@@ -358,17 +372,21 @@ func c11PeerKey(c *Ctx, r *Report, rule string) {
 			}
 			n++
 			var bad []string
+			spelling := "the dial string as configured"
 			for _, o := range c.originsIP(fn, args[1], 0) {
 				switch {
 				case o.Kind == "field" && strings.HasSuffix(o.Desc, "Upstream.Dial"):
 				case o.Kind == "const":
 				case o.Kind == "elem" && elemOfField(o.V, "Upstream.Dial"):
-				case o.Kind == "call" && (strings.Contains(o.Desc, "Replacer).Replace") || strings.HasSuffix(o.Desc, "NetworkAddress).String")):
-					// the dial string with placeholders replaced / the full spelling of the parsed address
+				case o.Kind == "call" && strings.Contains(o.Desc, "Replacer).Replace"):
+					spelling = "the dial string with placeholders replaced"
+				case o.Kind == "call" && strings.HasSuffix(o.Desc, "NetworkAddress).String"):
+					spelling = "the parsed address's String()"
 				default:
 					bad = append(bad, o.Kind+":"+o.Desc)
 				}
 			}
+			spellings[spelling] = append(spellings[spelling], c.ipos(ci))
 			sort.Strings(bad)
 			r.check(len(bad) == 0, rule, fname(fn), fmt.Sprintf("%s key#%d", shortCallee(id), n), c.ipos(ci), "the key is the configured dial address", "the key of the peer table derives from "+strings.Join(dedup(bad), ", ")+" instead of the configured dial address: two backends that differ only in what the key leaves out (network, host) share one peer - one of them is never dialed, and their health and connection counts are mixed")
 		}
@@ -432,4 +450,53 @@ func c11PeersFrozen(c *Ctx, r *Report, rule string) {
 	if n == 0 {
 		r.bad(rule, "modules/l4proxy.Upstream", "store Upstream.peers", "-", "no assignment of Upstream.peers found")
 	}
+}
+
+// c11AdmissionBeforeDial: "an upstream that has reached max_connections open proxied connections is not given another
+// until one ends" - also for connections that arrive at the same moment. The selector admits a connection by reading
+// the count; the count itself must therefore go up before anything that takes time happens, i.e. before the upstream
+// is dialed: while one connection is dialing, every other one still reads the old count and is admitted as well.
+// (A necessary condition, not the whole of it: the test and the increment are still two steps.)
+func c11AdmissionBeforeDial(c *Ctx, r *Report, rule string) {
+	r.rule(rule, "proxy Handle: the +1 on the peers' connection count that follows a selection is made before the selected upstream is dialed (a count raised only after the dial lets every connection that arrives during the dial pass the max_connections test as well)", 1)
+	fnName := "modules/l4proxy.(*Handler).Handle"
+	fn := c.Fn(fnName)
+	if fn == nil {
+		r.bad(rule, fnName, "exists", "-", "function not found")
+		return
+	}
+	// Handle and the unexported helpers of the package it is split into
+	var dial, plus []ssa.CallInstruction
+	for _, g := range sortedFuncs(c.reachSync(fn)) {
+		if g != fn && !(g.Pkg == fn.Pkg && !token.IsExported(g.Name()) && g.Name() != "dialPeers" && g.Name() != "proxy") {
+			continue
+		}
+		for _, ci := range callsIn(g) {
+			switch calleeID(ci) {
+			case "modules/l4proxy.(*Handler).dialPeers":
+				dial = append(dial, ci)
+			case "modules/l4proxy.(*peer).countConn":
+				if k, ok := constInt(ci.Common().Args[1]); ok && k > 0 {
+					plus = append(plus, ci)
+				}
+			}
+		}
+	}
+	if len(dial) == 0 || len(plus) == 0 {
+		r.bad(rule, fnName, "count before dial", c.pos(fn.Pos()), fmt.Sprintf("undecided: %d dial(s) and %d increment(s) found", len(dial), len(plus)))
+		return
+	}
+	before := false
+	for _, d := range dial {
+		for _, p := range plus {
+			if p.Parent() == d.Parent() && canReach(p, d) && !canReach(d, p) {
+				before = true
+			}
+			if p.Parent() == d.Parent() && inLoop(d.Block()) && canReach(p, d) && dominates(p, d) {
+				before = true
+			}
+		}
+	}
+	r.check(before, rule, fnName, "count before dial", c.ipos(dial[0]), "the connection is counted before the upstream is dialed",
+		"the connection count is raised only after the selected upstream has been dialed ("+c.ipos(plus[0])+"): connections arriving while one is dialing all read the old count in the selector and are admitted - with max_connections 1, eight simultaneous clients are proxied to the upstream at the same time")
 }
